@@ -261,6 +261,7 @@ namespace occa {
     template <class T2>
     array<T2> mapTo(occa::array<T2> &output,
                      const occa::function<T2(const T&, const int, const T*)> &fn) const {
+      output.resize(length());
       typelessMapTo(output.memory_, fn);
       return output;
     }
